@@ -427,3 +427,294 @@ Proof.
   destruct o; try exact H.
   destruct (take_nth i [] (s_net s)) as [[g rest]|]; exact H.
 Qed.
+
+(* ------------------------------------------------------------------ attached sessions belong to current subscribers *)
+
+Definition mem_ok (x : topic) : Prop := forall e, In e (t_sess x) -> cached x (snd e) = true.
+Definition tops_ok (s : state) : Prop := Forall (fun e => mem_ok (snd e)) (s_top s).
+
+Lemma cached_set_pud u p x u' :
+  cached (set_pud u p x) u' = if u' =? u then negb (p_deleted p) else cached x u'.
+Proof.
+  unfold cached, set_pud. simpl. destruct (u' =? u) eqn:E.
+  - apply N.eqb_eq in E. subst. now rewrite (aget_aset_same N.eqb Neqb_eq).
+  - now rewrite (aget_aset_other N.eqb Neqb_eq) by exact E.
+Qed.
+
+Lemma mem_set_pud u p x : mem_ok x -> (cached x u = true -> p_deleted p = false) -> mem_ok (set_pud u p x).
+Proof.
+  intros H Hp e He. rewrite cached_set_pud. specialize (H e He).
+  destruct (snd e =? u) eqn:E; auto. apply N.eqb_eq in E. rewrite E in H. rewrite (Hp H). reflexivity.
+Qed.
+
+Lemma mem_set_tsess l x : mem_ok x -> (forall e, In e l -> In e (t_sess x)) -> mem_ok (set_tsess l x).
+Proof. intros H Hl e He. apply (H e). apply Hl. exact He. Qed.
+
+Lemma mem_attach sid u x : mem_ok x -> cached x u = true -> mem_ok (set_tsess (t_sess x ++ [(sid, u)]) x).
+Proof.
+  intros H Hc e He. simpl in He. apply in_app_or in He as [He | [<- | []]]; [apply (H e He) | exact Hc].
+Qed.
+
+Lemma mem_set_tmarked b x : mem_ok x -> mem_ok (set_tmarked b x).
+Proof. intros H e He. apply (H e He). Qed.
+
+Lemma adel_subset {V} k (l : list (N * V)) e : In e (adel N.eqb k l) -> In e l.
+Proof.
+  induction l as [|[k' v'] r IH]; simpl; auto. destruct (k =? k'); simpl; intros H; auto. destruct H; auto.
+Qed.
+
+Lemma mem_evict x uid unsub : mem_ok x -> mem_ok (fst (evict_user x uid unsub)).
+Proof.
+  intros H. unfold evict_user. destruct (cached x uid) eqn:C; simpl; intros e He; simpl in He;
+    apply filter_In in He as [He Hne]; apply negb_true_iff in Hne.
+  - change (cached (set_pud uid (mkPud (p_want (get_pud x uid)) (p_given (get_pud x uid)) 0 unsub) x) (snd e) = true).
+    rewrite cached_set_pud, Hne. apply (H e He).
+  - apply (H e He).
+Qed.
+
+Lemma mem_unload x : mem_ok (unload_top x).
+Proof. intros e []. Qed.
+Lemma mem_load x : mem_ok (load_top x).
+Proof. intros e []. Qed.
+
+Lemma tops_get s t x : tops_ok s -> get_top s t = Some x -> mem_ok x.
+Proof. intros H G. exact (aget_forall tname_eqb tname_eqb_eq mem_ok t x _ H G). Qed.
+
+Lemma tops_put s t x : tops_ok s -> mem_ok x -> tops_ok (put_top t x s).
+Proof. intros H Hx. unfold tops_ok, put_top. simpl. now apply aset_forall. Qed.
+
+Lemma sub_notif_grp_mem t x u sid : mem_ok x -> mem_ok (fst (sub_notif_grp t x u sid)).
+Proof.
+  intros H. unfold sub_notif_grp. destruct (negb (t_marked x)); simpl; [now apply mem_set_tmarked|].
+  destruct (p_online (get_pud x u) =? 1)%Z; exact H.
+Qed.
+
+Lemma cached_get_pud_deleted x u : cached x u = true -> p_deleted (get_pud x u) = false.
+Proof.
+  unfold cached, get_pud. destruct (aget N.eqb u (t_users x)); [|discriminate]. now intros ->%negb_true_iff.
+Qed.
+
+Lemma tops_send ms s : tops_ok s -> tops_ok (send ms s).
+Proof. intros H; exact H. Qed.
+
+Lemma notif_pair (b : bool) t x1 u sid x2 (ms : list msg) :
+  (if b then (x1, []) else sub_notif_grp t x1 u sid) = (x2, ms) -> mem_ok x1 -> mem_ok x2.
+Proof.
+  destruct b; intros E H.
+  - now inversion E; subst.
+  - replace x2 with (fst (sub_notif_grp t x1 u sid)) by now rewrite E. now apply sub_notif_grp_mem.
+Qed.
+
+Ltac brk :=
+  repeat match goal with
+         | |- tops_ok (fst (match ?x with _ => _ end)) => destruct x eqn:?
+         | |- tops_ok (fst (if ?x then _ else _)) => destruct x eqn:?
+         end; simpl.
+
+Lemma mem_loaded_or x0 : mem_ok x0 -> mem_ok (if t_loaded x0 then x0 else load_top x0).
+Proof. intros H. destruct (t_loaded x0); [exact H | apply mem_load]. Qed.
+
+Lemma mem_attach_set sid u p x :
+  mem_ok x -> p_deleted p = false -> mem_ok (set_pud u p (set_tsess (t_sess x ++ [(sid, u)]) x)).
+Proof.
+  intros H Hp e He. simpl in He.
+  change (cached (set_pud u p x) (snd e) = true). rewrite cached_set_pud, Hp. simpl.
+  apply in_app_or in He as [He | [<- | []]].
+  - destruct (snd e =? u); auto.
+  - simpl. now rewrite N.eqb_refl.
+Qed.
+
+Lemma tops_att_grp s sid u g b : tops_ok s -> tops_ok (fst (att_grp s sid u g b)).
+Proof.
+  intros H. unfold att_grp. destruct (get_top s (TGrp g)) as [x0|] eqn:G; [|exact H].
+  pose proof (mem_loaded_or x0 (tops_get _ _ _ H G)) as Hx.
+  set (x := if t_loaded x0 then x0 else load_top x0) in *. clearbody x.
+  brk; auto; try (apply tops_send); apply tops_put; auto;
+    (eapply notif_pair; [eassumption|]); apply mem_attach_set; auto.
+  simpl. now apply cached_get_pud_deleted.
+Qed.
+
+Lemma tops_att_p2p s sid u v b : tops_ok s -> tops_ok (fst (att_p2p s sid u v b)).
+Proof.
+  intros H. unfold att_p2p. destruct (u =? v); [exact H|].
+  destruct (get_top s (p2p_name u v)) as [x0|] eqn:G.
+  - pose proof (mem_loaded_or x0 (tops_get _ _ _ H G)) as Hx.
+    set (x := if t_loaded x0 then x0 else load_top x0) in *. clearbody x.
+    brk; auto. apply tops_put; auto. apply mem_attach_set; auto.
+    simpl. apply cached_get_pud_deleted. now apply negb_false_iff.
+  - simpl. apply tops_send, tops_put; auto. intros e [<- | []]. simpl. unfold cached. simpl. now rewrite N.eqb_refl.
+Qed.
+
+Lemma tops_att_me s sid u b : tops_ok s -> tops_ok (fst (att_me s sid u b)).
+Proof.
+  intros H. unfold att_me.
+  repeat match goal with
+         | |- tops_ok (fst (match ?x with _ => _ end)) => destruct x eqn:?
+         | |- tops_ok (fst (if ?x then _ else _)) => destruct x eqn:?
+         end; simpl; exact H.
+Qed.
+
+Lemma mem_modes x u w g : mem_ok x -> mem_ok (set_pud u (p_set_modes w g (get_pud x u)) x).
+Proof. intros H. apply mem_set_pud; auto. simpl. apply cached_get_pud_deleted. Qed.
+
+Lemma tops_want s sid u t m : tops_ok s -> tops_ok (fst (want_op s sid u t m)).
+Proof.
+  intros H. unfold want_op. destruct (get_top s t) as [x|] eqn:G; [|exact H].
+  pose proof (tops_get _ _ _ H G) as Hx.
+  brk; auto. apply tops_send, tops_put; auto. now apply mem_modes.
+Qed.
+
+Lemma mem_if_evict (c : bool) x v : mem_ok x -> mem_ok (if c then x else fst (evict_user x v false)).
+Proof. intros H. destruct c; auto. now apply mem_evict. Qed.
+
+Lemma tops_given s sid u t v m : tops_ok s -> tops_ok (fst (given_op s sid u t v m)).
+Proof.
+  intros H. unfold given_op. destruct (get_top s t) as [x|] eqn:G; [|exact H].
+  pose proof (tops_get _ _ _ H G) as Hx.
+  brk; auto; apply tops_send, tops_put; auto; apply mem_if_evict.
+  - now apply mem_modes.
+  - apply mem_set_pud; auto.
+Qed.
+
+Lemma tops_evict s sid u t v : tops_ok s -> tops_ok (fst (evict_op s sid u t v)).
+Proof.
+  intros H. unfold evict_op. destruct (get_top s t) as [x|] eqn:G; [|exact H].
+  pose proof (tops_get _ _ _ H G) as Hx.
+  brk; auto. apply tops_send, tops_put; auto. now apply mem_evict.
+Qed.
+
+Lemma tops_unsub s sid u t : tops_ok s -> tops_ok (fst (unsub_op s sid u t)).
+Proof.
+  intros H. unfold unsub_op. destruct (get_top s t) as [x|] eqn:G; [|exact H].
+  pose proof (tops_get _ _ _ H G) as Hx.
+  brk; auto. apply tops_send, tops_put; auto. now apply mem_evict.
+Qed.
+
+Lemma tops_pub s sid u t : tops_ok s -> tops_ok (fst (pub_op s sid u t)).
+Proof.
+  intros H. unfold pub_op. destruct (get_top s t) as [x|] eqn:G; [|exact H]. brk; auto.
+Qed.
+
+Lemma tops_put_me u m s : tops_ok s -> tops_ok (put_me u m s).
+Proof. intros H; exact H. Qed.
+
+Lemma tops_leave s sid u t b : tops_ok s -> tops_ok (leave s sid u t b).
+Proof.
+  intros H. unfold leave. destruct t.
+  - unfold leave_me. destruct (get_me s u); [|exact H]. destruct (negb _); exact H.
+  - unfold leave_top. destruct (get_top s (TP2P a b0)) as [x|] eqn:G; [|exact H].
+    destruct (aget N.eqb sid (t_sess x)) as [uid|] eqn:A; [|exact H].
+    apply tops_send, tops_put; auto. pose proof (tops_get _ _ _ H G) as Hx.
+    apply mem_set_pud.
+    + apply mem_set_tsess; auto. intros e. apply adel_subset.
+    + intros C. simpl. apply cached_get_pud_deleted. exact C.
+  - unfold leave_top. destruct (get_top s (TGrp g)) as [x|] eqn:G; [|exact H].
+    destruct (aget N.eqb sid (t_sess x)) as [uid|] eqn:A; [|exact H].
+    apply tops_send, tops_put; auto. pose proof (tops_get _ _ _ H G) as Hx.
+    apply mem_set_pud.
+    + apply mem_set_tsess; auto. intros e. apply adel_subset.
+    + intros C. simpl. apply cached_get_pud_deleted. exact C.
+Qed.
+
+Lemma tops_fold_leave l s sid u : tops_ok s -> tops_ok (fold_left (fun acc t => leave acc sid u t false) l s).
+Proof. revert s. induction l; simpl; intros s H; auto. apply IHl. now apply tops_leave. Qed.
+
+Lemma tops_to_fg s sid u t : tops_ok s -> tops_ok (to_fg s sid u t).
+Proof.
+  intros H. unfold to_fg. destruct t.
+  - destruct (get_me s u); [|exact H]. destruct (sub_notif_me _ _ _). exact H.
+  - exact H.
+  - destruct (get_top s (TGrp g)) as [x|] eqn:G; [|exact H]. destruct (negb (t_supd x)); [exact H|].
+    pose proof (tops_get _ _ _ H G) as Hx.
+    destruct (sub_notif_grp _ _ _ _) as [x2 ms] eqn:E.
+    apply tops_send, tops_put; auto.
+    replace x2 with (fst (sub_notif_grp (TGrp g) (set_pud u (p_set_online (p_online (get_pud x u) + 1) (get_pud x u)) x) u sid))
+      by now rewrite E.
+    apply sub_notif_grp_mem. apply mem_set_pud; auto. simpl. apply cached_get_pud_deleted.
+Qed.
+
+Lemma tops_fold_fg l s sid u : tops_ok s -> tops_ok (fold_left (fun acc t => to_fg acc sid u t) l s).
+Proof. revert s. induction l; simpl; intros s H; auto. apply IHl. now apply tops_to_fg. Qed.
+
+Lemma tops_set_sess f s : tops_ok s -> tops_ok (set_sess f s).
+Proof. intros H; exact H. Qed.
+
+Lemma tops_open s sid u b s1 b1 : tops_ok s -> open_sess s sid u b = Some (s1, b1) -> tops_ok s1.
+Proof.
+  intros H. unfold open_sess. destruct (get_sess s sid).
+  - destruct (negb _); [discriminate|]. destruct (sess_count_me s sid); intros [= <- <-]; exact H.
+  - intros [= <- <-]. exact H.
+Qed.
+
+Lemma tops_drop s t : tops_ok s -> tops_ok (drop_topic s t).
+Proof.
+  intros H. unfold drop_topic. destruct t; [exact H| |];
+    (destruct (get_top s _) eqn:G; [apply tops_put; auto; apply mem_unload | exact H]).
+Qed.
+
+Lemma tops_deliver s g : tops_ok s -> tops_ok (fst (deliver_msg s g)).
+Proof.
+  intros H. unfold deliver_msg. destruct (m_dst g).
+  - destruct (get_me s u); [|exact H]. simpl. destruct (r_reply _); exact H.
+  - destruct (get_top s (TP2P a b)); [|exact H]. destruct (negb (t_loaded t)); [exact H|]. simpl. destruct (r_reply _); exact H.
+  - destruct (get_top s (TGrp g0)); [|exact H]. destruct (negb (t_loaded t)); [exact H|]. simpl. destruct (r_reply _); exact H.
+Qed.
+
+Lemma tops_step s o : tops_ok s -> tops_ok (fst (step s o)).
+Proof.
+  intros H. destruct o; simpl.
+  - destruct (open_sess s sid u bkg) as [[s1 b]|] eqn:O; [|exact H].
+    destruct (get_top s (TGrp g)); [exact H|].
+    pose proof (tops_open _ _ _ _ _ _ H O) as H1.
+    destruct (if b then _ else _) as [x2 ms] eqn:E. simpl.
+    apply tops_send, tops_put; auto. eapply notif_pair; [exact E|].
+    intros e [<- | []]. simpl. unfold cached. simpl. now rewrite N.eqb_refl.
+  - destruct (open_sess s sid u bkg) as [[s1 b]|] eqn:O; [|exact H].
+    pose proof (tops_open _ _ _ _ _ _ H O) as H1.
+    destruct r; [now apply tops_att_me | now apply tops_att_p2p | now apply tops_att_grp].
+  - destruct (sess_user s sid); [|exact H]. destruct (sess_on s sid _); [|exact H]. simpl. now apply tops_leave.
+  - destruct (sess_user s sid); [|exact H]. now apply tops_unsub.
+  - destruct (sess_user s sid); [|exact H]. simpl. apply tops_set_sess. now apply tops_fold_leave.
+  - destruct (get_sess s sid); [|exact H]. destruct (negb _); [exact H|]. simpl. now apply tops_fold_fg.
+  - destruct (sess_user s sid); [|exact H]. destruct r; [exact H| |]; now apply tops_want.
+  - destruct (sess_user s sid); [|exact H]. destruct r; [exact H| |];
+      (destruct (n =? v); [now apply tops_want | now apply tops_given]).
+  - destruct (sess_user s sid); [|exact H]. destruct r; [exact H| |]; now apply tops_evict.
+  - destruct (sess_user s sid); [|exact H]. destruct r; [exact H| |]; now apply tops_pub.
+  - destruct (idle s t); [|exact H]. simpl. apply tops_send. now apply tops_drop.
+  - destruct (idle s t); [|exact H]. simpl. now apply tops_drop.
+  - destruct (aget tname_eqb t (s_zomb s)); exact H.
+  - destruct (take_nth i [] (s_net s)) as [[g rest]|]; [|exact H]. now apply tops_deliver.
+Qed.
+
+Lemma tops_run h : forall s, tops_ok s -> tops_ok (fst (run s h)).
+Proof.
+  induction h as [|o r IH]; simpl; intros s H; auto.
+  pose proof (tops_step s o H) as H1. destruct (step s o) as [s1 o1]. simpl in H1.
+  specialize (IH s1 H1). destruct (run s1 r) as [s2 o2]. exact IH.
+Qed.
+
+Lemma members_ok_reach s : reach s -> members_ok s.
+Proof.
+  intros [h ->]. assert (T : tops_ok (fst (run init h))) by (apply tops_run; constructor).
+  intros t x sid uid G Hin. exact (tops_get _ _ _ T G (sid, uid) Hin).
+Qed.
+
+(* never leaks, on reachable states: the recipient is a current, non-deleted subscriber *)
+Lemma no_leak_reach s i g rest sid user top src w :
+  reach s -> take_nth i [] (s_net s) = Some (g, rest) ->
+  In (Frame sid user top src w) (snd (step s (Deliver i))) ->
+  match top with
+  | TMe u => user = u
+  | t => exists x, get_top s t = Some x /\ In (sid, user) (t_sess x) /\ cached x user = true /\
+                   (exempt w = false -> is_presencer (p_mode (get_pud x user)) = true)
+  end.
+Proof.
+  intros R T Hin. pose proof (no_leak_all s (Deliver i)) as A. rewrite Forall_forall in A.
+  specialize (A _ Hin). unfold entitled_at in A. rewrite T in A. simpl in A.
+  pose proof (members_ok_reach s R) as M.
+  destruct top.
+  - tauto.
+  - destruct A as (x & G & I & P). exists x. repeat split; auto. exact (M _ _ _ _ G I).
+  - destruct A as (x & G & I & P). exists x. repeat split; auto. exact (M _ _ _ _ G I).
+Qed.
